@@ -38,12 +38,48 @@ func execLLS(a []Tok) string {
 	if !sameBits(xs, ox) || !sameBits(ys, oy) {
 		panic("LinearLeastSquares modified its arguments")
 	}
+	// a returned result belongs to the caller: it is read only after further, unrelated fits
+	laterFits(len(xs), len(terms))
 	return fmtFs(p)
+}
+
+// laterFits runs other fits of the same and of different sizes (what a program does between
+// obtaining a result and reading it).
+func laterFits(n, k int) {
+	for _, m := range []int{n, n + 3} {
+		if m < 1 {
+			m = 1
+		}
+		xs, ys := make([]float64, m), make([]float64, m)
+		for i := range xs {
+			xs[i] = float64(i) - 1.5
+			ys[i] = -3 + 0.5*xs[i] + float64(i%3)
+		}
+		var terms []func(xs, out []float64)
+		for j := 0; j < k; j++ {
+			j := j
+			terms = append(terms, func(xs, out []float64) {
+				for i, x := range xs {
+					out[i] = math.Pow(x, float64(j))
+				}
+			})
+		}
+		if k > 0 {
+			fit.LinearLeastSquares(xs, ys, nil, terms...)
+		}
+		d := k - 1
+		if d < 0 {
+			d = 0
+		}
+		r := fit.PolynomialRegression(xs, ys, nil, d)
+		r.F(0.25)
+	}
 }
 
 func execPReg(a []Tok) string {
 	xs, ys, ws := a[0].Fs(), a[1].Fs(), optW(a[2])
 	r := fit.PolynomialRegression(xs, ys, ws, a[3].Int())
+	laterFits(len(xs), a[3].Int()+1)
 	ev := a[4].Fs()
 	fv := make([]float64, len(ev))
 	for i, x := range ev {
